@@ -302,6 +302,53 @@ Proof.
     try (intros; reflexivity); exact demo_init.
 Qed.
 
+(* ================= the translated Go code =================
+   Gen/GenFlowBase.v is GENERATED on every run from aggsender/flows/flow_base.go (getLastSentBlockAndRetryCount,
+   getNextHeightAndPreviousLER) and agglayer/types/types.go (the CertificateStatus predicates). The calls through the receiver
+   (StartL2Block(), getStartLER(), storage.GetCertificateHeaderByHeight) are oracles of the generated functions; `hdr_of` reads a
+   model row as the CertificateHeader the storage hands out, `by_height rs` is the table as that oracle. The generated functions
+   decide what the model's last_sent_block / next_height_ler decide, for every row and table (uint64 heights, retry count below
+   2^63 - 1), and so the height, previous exit root, first block and retry count of every certificate the model's builder returns
+   are the outputs of the TRANSLATED functions. *)
+From Coq Require Import ZArith.
+From Verif Require Base.GoNum Gen.GenFlowBase Proofs.GenAgreeFlowBase.
+
+Theorem C02_generated_status_predicates : forall s,
+  GenFlowBase.CertificateStatus_IsOpen (status_code s) = is_open s /\ GenFlowBase.CertificateStatus_IsClosed (status_code s) = is_closed s /\
+  GenFlowBase.CertificateStatus_IsSettled (status_code s) = is_settled s /\ GenFlowBase.CertificateStatus_IsInError (status_code s) = is_in_error s.
+Proof.
+  intros s. repeat split; [exact (GenAgreeFlowBase.IsOpen_agree s) | exact (GenAgreeFlowBase.IsClosed_agree s)
+                          | exact (GenAgreeFlowBase.IsSettled_agree s) | exact (GenAgreeFlowBase.IsInError_agree s)].
+Qed.
+Theorem C02_generated_getLastSentBlockAndRetryCount_is_model : forall (hash bev cev : Type) (start_block : N) (last : option (row hash bev cev)),
+  match last with Some r => (from r < GoNum.U64)%N /\ (Z.of_N (retry r) + 1 < 9223372036854775808)%Z | None => True end ->
+  GenFlowBase.getLastSentBlockAndRetryCount hash start_block (option_map (GenAgreeFlowBase.hdr_of hash bev cev) last) =
+  (fst (last_sent_block hash bev cev start_block last), Z.of_N (snd (last_sent_block hash bev cev start_block last))).
+Proof. exact GenAgreeFlowBase.getLastSentBlockAndRetryCount_agree. Qed.
+Theorem C02_generated_getNextHeightAndPreviousLER_is_model : forall (hash bev cev : Type) (hash0 start_ler : hash) (rs : list (row hash bev cev)) last,
+  match last with Some r => (height r + 1 < GoNum.U64)%N | None => True end ->
+  match next_height_ler hash bev cev start_ler rs last with
+  | Some (h, p) => GenFlowBase.getNextHeightAndPreviousLER hash hash0 (start_ler, GoNum.EOK) (GenAgreeFlowBase.by_height hash bev cev rs)
+                     (option_map (GenAgreeFlowBase.hdr_of hash bev cev) last) = (h, p, GoNum.EOK)
+  | None => snd (GenFlowBase.getNextHeightAndPreviousLER hash hash0 (start_ler, GoNum.EOK) (GenAgreeFlowBase.by_height hash bev cev rs)
+                     (option_map (GenAgreeFlowBase.hdr_of hash bev cev) last)) <> GoNum.EOK
+  end.
+Proof. exact GenAgreeFlowBase.getNextHeightAndPreviousLER_agree. Qed.
+Theorem C02_generated_decides_height_and_previous_root : forall (hash bev cev : Type) (hash0 start_ler : hash) (b_dc : bev -> N) (tree : Type)
+  (require_events : bool) (cert_type : N) (s : state hash bev cev tree) last rc f t sb rc',
+  match last with Some r => (height r + 1 < GoNum.U64)%N | None => True end ->
+  build_range hash bev cev b_dc tree start_ler require_events cert_type s last rc f t = Some (sb, rc') ->
+  GenFlowBase.getNextHeightAndPreviousLER hash hash0 (start_ler, GoNum.EOK) (GenAgreeFlowBase.by_height hash bev cev (rows s))
+    (option_map (GenAgreeFlowBase.hdr_of hash bev cev) last) = (s_height sb, s_prev sb, GoNum.EOK).
+Proof. exact GenAgreeFlowBase.built_height_and_prev_are_generated. Qed.
+Theorem C02_generated_decides_first_block_and_retry : forall (hash bev cev : Type) (start_block : N) (start_ler : hash) (b_dc : bev -> N) (tree : Type)
+  (require_events : bool) (cert_type : N) (s : state hash bev cev tree) cut sb rc,
+  match hd_error (rows s) with Some r => (from r < GoNum.U64)%N /\ (Z.of_N (retry r) + 1 < 9223372036854775808)%Z | None => True end ->
+  build hash bev cev b_dc tree start_block start_ler require_events cert_type s cut = Some (sb, rc) ->
+  GenFlowBase.getLastSentBlockAndRetryCount hash start_block (option_map (GenAgreeFlowBase.hdr_of hash bev cev) (hd_error (rows s))) =
+  ((s_from sb - 1)%N, Z.of_N rc).
+Proof. exact GenAgreeFlowBase.built_start_and_retry_are_generated. Qed.
+
 Print Assumptions C02_Inv_init.
 Print Assumptions C02_step_preserves_Inv.
 Print Assumptions C02_reachable_Inv.
@@ -320,3 +367,8 @@ Print Assumptions C02_step_preserves_Inv_fep_partial.
 Print Assumptions C02_reachable_Inv_fep_partial.
 Print Assumptions C02_submissions_well_formed_fep_partial.
 Print Assumptions C02_no_submission_while_undecided_fep_partial.
+Print Assumptions C02_generated_status_predicates.
+Print Assumptions C02_generated_getLastSentBlockAndRetryCount_is_model.
+Print Assumptions C02_generated_getNextHeightAndPreviousLER_is_model.
+Print Assumptions C02_generated_decides_height_and_previous_root.
+Print Assumptions C02_generated_decides_first_block_and_retry.
